@@ -405,7 +405,10 @@ theorem bankMsgSend_noPanic (cfg : Cfg) (c : Ctx) (to denom : String) (amt : Int
     · intro _
       apply Res.PanicsIn.ite
       · intro _; exact Res.PanicsIn.err _
-      · intro _; exact send_noPanic _ _ _ _ _ _
+      · intro _
+        apply Res.PanicsIn.ite
+        · intro _; exact Res.PanicsIn.err _
+        · intro _; exact send_noPanic _ _ _ _ _ _
 
 theorem hyp_validate_fee {hrp : String} {orb tok rec_ hook : Bytes} {domain : Nat} {hmeta feeDenom : String} {gas feeAmt : Int}
     (h : (Attrs.hyp tok domain rec_ hook hmeta gas feeDenom feeAmt).validate hrp orb = .ok ()) :
